@@ -143,7 +143,6 @@ package flows
 //@   ensures[mainnet-claim] result1 == nil ==> forall(k, 0, len(claims), result0[k].GlobalIndex.MainnetFlag ==> typeIs(result0[k].ClaimData, *agglayertypes.ClaimFromMainnnet) && cast(result0[k].ClaimData, *agglayertypes.ClaimFromMainnnet).L1Leaf != nil && cast(result0[k].ClaimData, *agglayertypes.ClaimFromMainnnet).L1Leaf.Inner != nil && cast(result0[k].ClaimData, *agglayertypes.ClaimFromMainnnet).ProofLeafMER != nil && cast(result0[k].ClaimData, *agglayertypes.ClaimFromMainnnet).ProofGERToL1Root != nil && cast(result0[k].ClaimData, *agglayertypes.ClaimFromMainnnet).L1Leaf.L1InfoTreeIndex == gerLeafIndex(claims[k].GlobalExitRoot) && cast(result0[k].ClaimData, *agglayertypes.ClaimFromMainnnet).L1Leaf.MainnetExitRoot == claims[k].MainnetExitRoot && cast(result0[k].ClaimData, *agglayertypes.ClaimFromMainnnet).L1Leaf.RollupExitRoot == claims[k].RollupExitRoot && cast(result0[k].ClaimData, *agglayertypes.ClaimFromMainnnet).L1Leaf.Inner.GlobalExitRoot == claims[k].GlobalExitRoot && cast(result0[k].ClaimData, *agglayertypes.ClaimFromMainnnet).L1Leaf.Inner.Timestamp == gerLeafTimestamp(claims[k].GlobalExitRoot) && cast(result0[k].ClaimData, *agglayertypes.ClaimFromMainnnet).L1Leaf.Inner.BlockHash == gerLeafPrevBlockHash(claims[k].GlobalExitRoot) && cast(result0[k].ClaimData, *agglayertypes.ClaimFromMainnnet).ProofLeafMER.Root == claims[k].MainnetExitRoot && cast(result0[k].ClaimData, *agglayertypes.ClaimFromMainnnet).ProofLeafMER.Proof == claims[k].ProofLocalExitRoot && cast(result0[k].ClaimData, *agglayertypes.ClaimFromMainnnet).ProofGERToL1Root.Root == rootFromWhichToProve && cast(result0[k].ClaimData, *agglayertypes.ClaimFromMainnnet).ProofGERToL1Root.Proof == gerProofTo(claims[k].GlobalExitRoot, rootFromWhichToProve))
 //@   ensures[rollup-claim] result1 == nil ==> forall(k, 0, len(claims), !result0[k].GlobalIndex.MainnetFlag ==> typeIs(result0[k].ClaimData, *agglayertypes.ClaimFromRollup) && cast(result0[k].ClaimData, *agglayertypes.ClaimFromRollup).L1Leaf != nil && cast(result0[k].ClaimData, *agglayertypes.ClaimFromRollup).L1Leaf.Inner != nil && cast(result0[k].ClaimData, *agglayertypes.ClaimFromRollup).ProofLeafLER != nil && cast(result0[k].ClaimData, *agglayertypes.ClaimFromRollup).ProofLERToRER != nil && cast(result0[k].ClaimData, *agglayertypes.ClaimFromRollup).ProofGERToL1Root != nil && cast(result0[k].ClaimData, *agglayertypes.ClaimFromRollup).L1Leaf.L1InfoTreeIndex == gerLeafIndex(claims[k].GlobalExitRoot) && cast(result0[k].ClaimData, *agglayertypes.ClaimFromRollup).L1Leaf.MainnetExitRoot == claims[k].MainnetExitRoot && cast(result0[k].ClaimData, *agglayertypes.ClaimFromRollup).L1Leaf.RollupExitRoot == claims[k].RollupExitRoot && cast(result0[k].ClaimData, *agglayertypes.ClaimFromRollup).L1Leaf.Inner.GlobalExitRoot == claims[k].GlobalExitRoot && cast(result0[k].ClaimData, *agglayertypes.ClaimFromRollup).L1Leaf.Inner.Timestamp == gerLeafTimestamp(claims[k].GlobalExitRoot) && cast(result0[k].ClaimData, *agglayertypes.ClaimFromRollup).L1Leaf.Inner.BlockHash == gerLeafPrevBlockHash(claims[k].GlobalExitRoot) && cast(result0[k].ClaimData, *agglayertypes.ClaimFromRollup).ProofLeafLER.Proof == claims[k].ProofLocalExitRoot && cast(result0[k].ClaimData, *agglayertypes.ClaimFromRollup).ProofLERToRER.Root == claims[k].RollupExitRoot && cast(result0[k].ClaimData, *agglayertypes.ClaimFromRollup).ProofLERToRER.Proof == claims[k].ProofRollupExitRoot && cast(result0[k].ClaimData, *agglayertypes.ClaimFromRollup).ProofGERToL1Root.Root == rootFromWhichToProve && cast(result0[k].ClaimData, *agglayertypes.ClaimFromRollup).ProofGERToL1Root.Proof == gerProofTo(claims[k].GlobalExitRoot, rootFromWhichToProve))
 //@   loop 0 invariant 0 <= rangeindex + 1 && rangeindex + 1 <= len(claims) && len(importedBridgeExits) == rangeindex + 1 && off(importedBridgeExits) == 0 && ref(importedBridgeExits) < heapTop && f.log != nil && f.l1InfoTreeDataQuerier != nil
-//@   loop 0 invariant forall(k, 0, rangeindex + 1, importedBridgeExits[k] != nil && fresh(importedBridgeExits[k]) && importedBridgeExits[k] < heapTop && fresh(importedBridgeExits[k].BridgeExit) && importedBridgeExits[k].BridgeExit < heapTop && fresh(importedBridgeExits[k].BridgeExit.TokenInfo) && importedBridgeExits[k].BridgeExit.TokenInfo < heapTop && fresh(importedBridgeExits[k].GlobalIndex) && importedBridgeExits[k].GlobalIndex < heapTop && fresh(importedBridgeExits[k].ClaimData) && importedBridgeExits[k].ClaimData < heapTop)
 //@   loop 0 invariant forall(k, 0, rangeindex + 1, importedBridgeExits[k] != nil && importedBridgeExits[k].BridgeExit != nil && importedBridgeExits[k].BridgeExit.TokenInfo != nil && importedBridgeExits[k].GlobalIndex != nil && importedBridgeExits[k].BridgeExit.LeafType == ite(claims[k].IsMessage, 1, 0) && importedBridgeExits[k].BridgeExit.TokenInfo.OriginNetwork == claims[k].OriginNetwork && importedBridgeExits[k].BridgeExit.TokenInfo.OriginTokenAddress == claims[k].OriginAddress && importedBridgeExits[k].BridgeExit.DestinationNetwork == claims[k].DestinationNetwork && importedBridgeExits[k].BridgeExit.DestinationAddress == claims[k].DestinationAddress && importedBridgeExits[k].BridgeExit.Amount == claims[k].Amount)
 //@   loop 0 invariant forall(k, 0, rangeindex + 1, absInt(bigval(claims[k].GlobalIndex)) < 4722366482869645213696 ==> importedBridgeExits[k].GlobalIndex.MainnetFlag == (absInt(bigval(claims[k].GlobalIndex)) >= 18446744073709551616) && importedBridgeExits[k].GlobalIndex.RollupIndex == (absInt(bigval(claims[k].GlobalIndex)) / 4294967296) % 4294967296 && importedBridgeExits[k].GlobalIndex.LeafIndex == absInt(bigval(claims[k].GlobalIndex)) % 4294967296)
 //@   loop 0 invariant forall(k, 0, rangeindex + 1, importedBridgeExits[k].GlobalIndex.MainnetFlag ==> typeIs(importedBridgeExits[k].ClaimData, *agglayertypes.ClaimFromMainnnet) && cast(importedBridgeExits[k].ClaimData, *agglayertypes.ClaimFromMainnnet).L1Leaf != nil && cast(importedBridgeExits[k].ClaimData, *agglayertypes.ClaimFromMainnnet).L1Leaf.Inner != nil && cast(importedBridgeExits[k].ClaimData, *agglayertypes.ClaimFromMainnnet).ProofLeafMER != nil && cast(importedBridgeExits[k].ClaimData, *agglayertypes.ClaimFromMainnnet).ProofGERToL1Root != nil && cast(importedBridgeExits[k].ClaimData, *agglayertypes.ClaimFromMainnnet).L1Leaf.L1InfoTreeIndex == gerLeafIndex(claims[k].GlobalExitRoot) && cast(importedBridgeExits[k].ClaimData, *agglayertypes.ClaimFromMainnnet).L1Leaf.MainnetExitRoot == claims[k].MainnetExitRoot && cast(importedBridgeExits[k].ClaimData, *agglayertypes.ClaimFromMainnnet).L1Leaf.RollupExitRoot == claims[k].RollupExitRoot && cast(importedBridgeExits[k].ClaimData, *agglayertypes.ClaimFromMainnnet).L1Leaf.Inner.GlobalExitRoot == claims[k].GlobalExitRoot && cast(importedBridgeExits[k].ClaimData, *agglayertypes.ClaimFromMainnnet).L1Leaf.Inner.Timestamp == gerLeafTimestamp(claims[k].GlobalExitRoot) && cast(importedBridgeExits[k].ClaimData, *agglayertypes.ClaimFromMainnnet).L1Leaf.Inner.BlockHash == gerLeafPrevBlockHash(claims[k].GlobalExitRoot) && cast(importedBridgeExits[k].ClaimData, *agglayertypes.ClaimFromMainnnet).ProofLeafMER.Root == claims[k].MainnetExitRoot && cast(importedBridgeExits[k].ClaimData, *agglayertypes.ClaimFromMainnnet).ProofLeafMER.Proof == claims[k].ProofLocalExitRoot && cast(importedBridgeExits[k].ClaimData, *agglayertypes.ClaimFromMainnnet).ProofGERToL1Root.Root == rootFromWhichToProve && cast(importedBridgeExits[k].ClaimData, *agglayertypes.ClaimFromMainnnet).ProofGERToL1Root.Proof == gerProofTo(claims[k].GlobalExitRoot, rootFromWhichToProve))
